@@ -105,7 +105,8 @@ type E2ETxn struct {
 	SelReq   Selection `json:"selected_for_request"`
 	SelRes   Selection `json:"selected_for_response"`
 	Events   []Event   `json:"events"`
-	Result   string    `json:"result"` // none | answered | error
+	Early    []string  `json:"early_response_of_event,omitempty"` // as Txn.Early
+	Result   string    `json:"result"`                            // none | answered | error
 	ErrText  string    `json:"error,omitempty"`
 	Invoked  []string  `json:"invoked"`
 	Actions  []EAct    `json:"actions"`
@@ -170,7 +171,7 @@ func e2eFlowYAML(f *FlowCfg, flt EFilter) string {
 	s = strings.Replace(s, old, yamlFilter(flt), 1)
 	for _, p := range f.Procs {
 		if p.Type == tGen {
-			body := fmt.Sprintf("        value: answered by %s\n", p.Key)
+			body := fmt.Sprintf("        value: %s\n", genBody(f.Name, p.Key))
 			s = strings.Replace(s, body, body+fmt.Sprintf("      - key: Content-Type\n        value: text/%s\n", p.Key), 1)
 		}
 	}
@@ -368,8 +369,15 @@ func e2eRun(st *streams.Stream, t *E2ETxn) {
 	// as a response, no response object)
 	t.SelRes = selSafe(st, api, publictypes.StreamTypeResponse)
 	before := st.GetFlowInvocations()
+	var at []int
 	evMu.Lock()
-	evSink = &events
+	evSink, evActs = &events, &at
+	curActs = func() int {
+		if acts.Request != nil {
+			return len(acts.Request.Actions)
+		}
+		return 0
+	}
 	evMu.Unlock()
 	var err error
 	func() {
@@ -381,13 +389,14 @@ func e2eRun(st *streams.Stream, t *E2ETxn) {
 		err = st.ExecuteFlow(api, acts)
 	}()
 	evMu.Lock()
-	evSink = nil
+	evSink, evActs, curActs = nil, nil, nil
 	evMu.Unlock()
 	after := st.GetFlowInvocations()
 	if events == nil {
 		events = []Event{}
 	}
 	t.Events = events
+	t.Early = earlyPerEvent(len(events), at, acts)
 	t.Invoked = []string{}
 	for name, n := range after {
 		for i := before[name]; i < n; i++ {
@@ -435,7 +444,7 @@ func e2eRun(st *streams.Stream, t *E2ETxn) {
 
 // predicted action of every processor (independent of what was observed):
 // request transactions: Filter -> no-op (either direction), GenerateResponse on
-// the request side -> early response 429 "answered by <key>", Content-Type text/<key>,
+// the request side -> early response <status> "answered by <declaring flow>.<key>", Content-Type text/<key>,
 // anything else appends nothing; response transactions: GenerateResponse ->
 // no-op, anything else nothing.
 func realOracle(cfg *Config, gs []GFlow, t *E2ETxn) []ARow {
@@ -448,20 +457,18 @@ func realOracle(cfg *Config, gs []GFlow, t *E2ETxn) []ARow {
 				continue
 			}
 			for _, n := range d.Nodes {
-				p := procOf(cfg, g.Owner[n.Key], n.Key)
+				in := g.instOf(n.Key)
+				p := cfg.proc(in)
 				if p == nil {
 					continue
-				}
-				bare := n.Key
-				if i := strings.Index(bare, "."); i >= 0 {
-					bare = bare[i+1:]
 				}
 				switch {
 				case !t.Resp && p.Type == tFilter:
 					out = append(out, ARow{g.Name, n.Key, dn, EAct{Kind: "noop"}})
 				case !t.Resp && p.Type == tGen && dn == "req":
-					out = append(out, ARow{g.Name, n.Key, dn, EAct{Kind: "early", Status: 429,
-						Body: "answered by " + bare, Headers: map[string]string{"Content-Type": "text/" + bare}}})
+					// the early response of the instance the configuration names
+					out = append(out, ARow{g.Name, n.Key, dn, EAct{Kind: "early", Status: p.genStatus(),
+						Body: genBody(in.Flow, in.Name), Headers: map[string]string{"Content-Type": "text/" + in.Name}}})
 				case t.Resp && p.Type == tGen:
 					out = append(out, ARow{g.Name, n.Key, dn, EAct{Kind: "noop"}})
 				}
@@ -737,6 +744,19 @@ func e2eMonitor(k *E2ECase, gs []GFlow, t *E2ETxn) []c.Hit {
 				break
 			}
 			last = r
+		}
+	}
+	// (3b) which processor ran at a node: the one its connection names
+	{
+		var hs []string
+		for _, h := range t.Headers {
+			if h.V == "1" {
+				hs = append(hs, h.K)
+			}
+		}
+		if dir, dem, obs, bad := instanceHit(&k.Config, gs, t.Events, t.Early, hs); bad {
+			hit("e2e:wrong-processor-instance:"+dir, dem, obs)
+			return hits
 		}
 	}
 	if t.Result == "error" {
